@@ -1,7 +1,10 @@
 package suites
 
 import (
+	"bytes"
 	"fmt"
+	"os"
+	"os/exec"
 	"sort"
 	"strconv"
 	"strings"
@@ -292,7 +295,7 @@ func RunHistory(nick, user string, evs []Ev) (obs, oracle string, ss *StateSessi
 		if ss.PanicCount() > 0 {
 			return "PANIC", fmt.Sprintf("panic: handler panicked on event %d (%s %q)", i, e.Cmd, e.Params), ss
 		}
-		if !ss.C.VerifTryStateLock() {
+		if !StateLockFree(ss.C, 3*time.Second) {
 			return "WEDGED", fmt.Sprintf("wedge: state lock still held after event %d (%s)", i, e.Cmd), ss
 		}
 	}
@@ -306,4 +309,273 @@ func RunHistory(nick, user string, evs []Ev) (obs, oracle string, ss *StateSessi
 		oracle = "structure: " + m
 	}
 	return obs, oracle, ss
+}
+
+// StateLockFree reports whether the state lock can be taken within d. A background
+// handler (CTCP replier, welcome handler) may hold the lock for an instant, so one failed
+// TryLock is not a wedge; a lock that stays held for seconds after the handlers returned is.
+func StateLockFree(c *girc.Client, d time.Duration) bool {
+	deadline := time.Now().Add(d)
+	for {
+		if c.VerifTryStateLock() {
+			return true
+		}
+		if time.Now().After(deadline) {
+			return false
+		}
+		time.Sleep(200 * time.Microsecond)
+	}
+}
+
+// Line renders the event as the raw line a server would send. ok=false when no line
+// parses back to exactly this event (empty or spaced middle parameter, empty source name, ...).
+func (e Ev) Line() (line string, ok bool) {
+	var sb strings.Builder
+	if e.HasAcct {
+		sb.WriteString("@account=" + e.Acct + " ")
+	}
+	if e.HasSrc {
+		sb.WriteString(":" + e.Name)
+		if e.Ident != "" {
+			sb.WriteString("!" + e.Ident)
+		}
+		if e.Host != "" {
+			sb.WriteString("@" + e.Host)
+		}
+		sb.WriteByte(' ')
+	}
+	sb.WriteString(e.Cmd)
+	for i, p := range e.Params {
+		if i == len(e.Params)-1 && (p == "" || strings.Contains(p, " ") || p[0] == ':') {
+			sb.WriteString(" :" + p)
+		} else {
+			sb.WriteString(" " + p)
+		}
+	}
+	line = sb.String()
+	if strings.ContainsAny(line, "\r\n\x00") {
+		return line, false
+	}
+	back, pok := EvFromLine(line)
+	if !pok || !evEqual(back, e) {
+		return line, false
+	}
+	return line, true
+}
+
+func evEqual(a, b Ev) bool {
+	if a.HasSrc != b.HasSrc || a.HasAcct != b.HasAcct || a.Cmd != b.Cmd || len(a.Params) != len(b.Params) {
+		return false
+	}
+	if a.HasSrc && (a.Name != b.Name || a.Ident != b.Ident || a.Host != b.Host) {
+		return false
+	}
+	if a.HasAcct && a.Acct != b.Acct {
+		return false
+	}
+	for i := range a.Params {
+		if a.Params[i] != b.Params[i] {
+			return false
+		}
+	}
+	return true
+}
+
+// SentinelPrefix starts every PING token the harness itself sends.
+const SentinelPrefix = "verif-sentinel-"
+
+// WrittenNoSentinels is Written without any PONG that answers a harness PING.
+func WrittenNoSentinels(lines []string) string {
+	var out []string
+	for _, l := range lines {
+		p := girc.ParseEvent(l)
+		if p == nil {
+			continue
+		}
+		switch p.Command {
+		case "WHO", "MODE", "PONG":
+			if p.Command == "PONG" && len(p.Params) == 1 && strings.HasPrefix(p.Params[0], SentinelPrefix) {
+				continue
+			}
+			out = append(out, Hex(p.Command)+":"+HexList(strings.Fields(strings.Join(p.Params, " "))))
+		}
+	}
+	return strings.Join(out, "|")
+}
+
+// ConnOptions selects the client configuration of a connected session.
+type ConnOptions struct {
+	SASL      bool // Config.SASL = SASLPlain
+	NoRecover bool // a handler panic is not absorbed (as with RecoverFunc == nil): the process dies
+}
+
+// RunConnected pushes the history through the socket of a MockConnect'ed client, one line
+// at a time, then requires the liveness half of C05: a sentinel PING is answered, or
+// Connect has returned an error. Observation: the state dump, or "disconnected".
+func RunConnected(nick, user string, evs []Ev, opt ConnOptions) (obs, oracle string) {
+	cfg := drive.BaseConfig()
+	cfg.Nick, cfg.User = nick, user
+	if opt.SASL {
+		cfg.SASL = &girc.SASLPlain{User: "acct", Pass: "secret"}
+	}
+	if opt.NoRecover {
+		cfg.RecoverFunc = func(c *girc.Client, e *girc.HandlerError) { panic(e) }
+	}
+	ss := drive.Start(cfg)
+	defer ss.Stop()
+	mark := ss.Mark()
+	seq := 0
+	var gone bool  // the pipe is closed or Connect has returned
+	var ended bool // Connect's result has been received
+	var derr error
+	pollDone := func() {
+		if ended {
+			return
+		}
+		select {
+		case derr = <-ss.Done:
+			ended, gone = true, true
+			ss.Done <- derr // Stop() reads it again
+		default:
+		}
+	}
+	// barrier: PING tok, then wait for its PONG or for Connect to return.
+	barrier := func() bool {
+		seq++
+		tok := SentinelPrefix + strconv.Itoa(seq)
+		if err := ss.Send("PING " + tok); err != nil {
+			gone = true
+			return false
+		}
+		want := "PONG " + tok + "\r\n"
+		deadline := time.Now().Add(10 * time.Second)
+		for {
+			if pollDone(); gone {
+				return false
+			}
+			for _, l := range ss.Since(mark) {
+				if l == want {
+					return true
+				}
+			}
+			if time.Now().After(deadline) {
+				return false
+			}
+			time.Sleep(100 * time.Microsecond)
+		}
+	}
+	for i, e := range evs {
+		line, ok := e.Line()
+		if !ok {
+			return "?unrenderable", ""
+		}
+		if err := ss.Send(line); err != nil {
+			gone = true
+			break
+		}
+		if e.Cmd == "001" && len(e.Params) > 0 {
+			// the welcome handler runs in the background: wait until it has taken effect
+			if !barrier() {
+				break
+			}
+			deadline := time.Now().Add(3 * time.Second)
+			for ss.C.GetNick() != e.Params[0] && e.Params[0] != "" && time.Now().Before(deadline) {
+				time.Sleep(50 * time.Microsecond)
+			}
+		}
+		if ss.PanicCount() > 0 {
+			return "PANIC", fmt.Sprintf("panic: handler panicked around event %d (%s %q)", i, e.Cmd, e.Params)
+		}
+	}
+	// two barriers: an ERROR queued by a handler is behind at most the first one
+	alive := !gone && barrier() && barrier()
+	if ss.PanicCount() > 0 {
+		return "PANIC", "panic: a handler panicked during the history"
+	}
+	if alive {
+		if !StateLockFree(ss.C, 3*time.Second) {
+			return "WEDGED", "wedge: state lock still held after the history"
+		}
+		obs = DumpState(ss.C) + ";w=" + WrittenNoSentinels(ss.Since(mark))
+		if m := StructuralInvariant(ss.C); m != "" {
+			oracle = "structure: " + m
+		}
+		return obs, oracle
+	}
+	// no PONG: Connect must return, with an error
+	deadline := time.Now().Add(5 * time.Second)
+	for !ended && time.Now().Before(deadline) {
+		pollDone()
+		time.Sleep(200 * time.Microsecond)
+	}
+	if !ended {
+		return "NOPONG", "liveness: after the history the client neither answered a PING nor returned from Connect"
+	}
+	if derr == nil {
+		return "disconnected-nil", "liveness: Connect returned without an error although nobody closed the client"
+	}
+	return "disconnected", ""
+}
+
+// Isolated runs one case of a suite in a child process (the same binary, `eval`), so that
+// a crash of the library (a panic in a bare goroutine kills the process) is an oracle
+// verdict with the case as replay instead of the death of the whole run.
+func Isolated(suite string, c Case, direct func(Case) Result) Result {
+	if os.Getenv("VERIF_ISOLATED_CHILD") == "1" {
+		return direct(c)
+	}
+	exe, err := os.Executable()
+	if err != nil {
+		return direct(c)
+	}
+	cmd := exec.Command(exe, "eval")
+	cmd.Env = append(os.Environ(), "VERIF_ISOLATED_CHILD=1")
+	cmd.Stdin = strings.NewReader(suite + "\t" + EncodeCase(c) + "\n")
+	var stdout, stderr bytes.Buffer
+	cmd.Stdout, cmd.Stderr = &stdout, &stderr
+	runErr := cmd.Run()
+	for _, ln := range strings.Split(stdout.String(), "\n") {
+		i := strings.Index(ln, "\t=>\t")
+		if i < 0 {
+			continue
+		}
+		f := strings.Split(ln[i+4:], "\t")
+		for len(f) < 3 {
+			f = append(f, "")
+		}
+		return Result{Obs: Unesc(f[0]), Oracle: Unesc(f[1]), Sig: f[2]}
+	}
+	msg := strings.TrimSpace(stderr.String())
+	if j := strings.Index(msg, "\n"); j >= 0 {
+		first := msg[:j]
+		if k := strings.Index(msg, "goroutine "); k >= 0 {
+			rest := msg[k:]
+			if l := strings.Index(rest, "\n"); l >= 0 {
+				rest = rest[l+1:]
+			}
+			fr := strings.SplitN(rest, "\n", 2)[0]
+			first += " @ " + strings.TrimSpace(fr)
+		}
+		msg = first
+	}
+	return Result{Obs: "DIED", Oracle: fmt.Sprintf("process-death: the process running the client died (%v): %s", runErr, msg), Sig: "died"}
+}
+
+// Unesc undoes Esc.
+func Unesc(s string) string {
+	if !strings.Contains(s, "\\x") {
+		return s
+	}
+	var sb strings.Builder
+	for i := 0; i < len(s); i++ {
+		if s[i] == '\\' && i+3 < len(s) && s[i+1] == 'x' {
+			if v, err := strconv.ParseUint(s[i+2:i+4], 16, 8); err == nil {
+				sb.WriteByte(byte(v))
+				i += 3
+				continue
+			}
+		}
+		sb.WriteByte(s[i])
+	}
+	return sb.String()
 }
